@@ -872,12 +872,15 @@ def case_specs(draw, depth, tier):
     collect_enames(depth, 0, answers, enames)
     collect_snames(depth, 0, sub, snames)
     enames, snames = sorted(enames), sorted(snames)
-    density = draw(st.sampled_from(['sparse', 'normal', 'normal', 'dense', 'quarters']))
+    density = draw(st.sampled_from(['sparse', 'normal', 'normal', 'dense', 'quarters', 'fine']))
     # 'quarters': every submitted item earns something against most expected items, at several distinct levels - the
     # assignment solver then needs several adjustment rounds (a seeded slip in its step 6 only shows there)
     cell = {'sparse': st.sampled_from([0, 0, 0, 0, 0, 0, 0.5, 1]), 'normal': CREDIT,
             'dense': st.sampled_from([0, 0.1, 1 / 3, 0.5, 0.7, 1, 1]),
-            'quarters': st.sampled_from([0.25, 0.5, 0.75, 1, 0, 0.25, 0.75, 0.5])}[density]
+            'quarters': st.sampled_from([0.25, 0.5, 0.75, 1, 0, 0.25, 0.75, 0.5]),
+            # 'fine': competing assignments whose totals differ by a few 1e-4 (a seeded change rounded the assignment
+            # costs to three decimals, after which the optimum was no longer found)
+            'fine': st.sampled_from([0.5, 0.5004, 0.3, 0.3004, 0.7, 0.7003, 0.2996, 0.4997, 0, 1])}[density]
     if density == 'quarters':
         spec['quarters'] = True
     cells = draw(st.lists(cell, min_size=len(enames) * len(snames), max_size=len(enames) * len(snames)))
